@@ -41,6 +41,7 @@
 extern int __sanitizer_install_malloc_and_free_hooks(void (*mh)(const volatile void *, size_t),
                                                      void (*fh)(const volatile void *));
 extern int SetFtpRoot(char *path);
+extern int __lsan_do_recoverable_leak_check(void);
 extern void rfbEncryptBytes(unsigned char *bytes, char *passwd);
 
 /* ------------------------------------------------------------------ state */
@@ -59,6 +60,7 @@ enum { F_NONE, F_RD_EINTR, F_RD_RESET, F_SEL_ERR, F_WR_EINTR, F_WR_ZERO, F_WSEL_
 static hconn H[MAXC];
 static rfbScreenInfoPtr scr;
 static int solo = 0, started = 0;
+static unsigned watchdog_s = 45;     /* real-time watchdog per op; a HANG is confirmed by a serial retry with 3x */
 static char sandbox[256];
 
 /* configuration */
@@ -509,6 +511,7 @@ int main(int argc, char **argv) {
   char *line; static char *tok[64];
   int i;
   for (i = 1; i < argc; i++) if (!strcmp(argv[i], "--solo")) solo = 1;
+  if (getenv("C04_WATCHDOG") && atoi(getenv("C04_WATCHDOG")) > 0) watchdog_s = (unsigned)atoi(getenv("C04_WATCHDOG"));
   signal(SIGALRM, hang);
   snprintf(sandbox, sizeof sandbox, "/tmp/c04sbx-%07d", (int)getpid());
   { /* a stale sandbox of a dead process with the same pid (its socket files would make bind fail) */
@@ -520,7 +523,7 @@ int main(int argc, char **argv) {
   while ((line = vh_readline())) {
     int n = vh_split(line, tok, 64);
     if (n == 0 || tok[0][0] == '#') continue;
-    alarm(45);
+    alarm(watchdog_s);
     if (!strcmp(tok[0], "cfg")) {
       for (i = 1; i < n; i++) {
         if (kv(tok[i], "w", &cW) || kv(tok[i], "h", &cH) || kv(tok[i], "bpp", &cBpp) || kv(tok[i], "pw", &cPw) ||
@@ -748,6 +751,10 @@ int main(int argc, char **argv) {
       rfbReleaseClientIterator(it);
       printf("end %d\n", solo ? -1 : left);
       printf("#wit end %d %zu %016llx\n", alive(&H[0]), wit_len, (unsigned long long)wit_hash);
+      fflush(stdout);
+      /* memory that nothing points to any more after all hostile peers are gone = leaked on behalf of
+         client input (the screen, the witness and the harness tables are still reachable) */
+      printf("#leak %d\n", solo ? 0 : __lsan_do_recoverable_leak_check());
       fflush(stdout);
       break;
     } else puts("bad-op");
